@@ -395,3 +395,734 @@ Qed.
 Example stringify_ex :
   stringify_arg true (bs "a""b\" ++ [10; 1; 226; 128; 168]) = bs """a\""b\\\n\u0001" ++ [226; 128; 168; 34].
 Proof. vm_compute. reflexivity. Qed.
+
+(* ------------------------------------------------------------------------------------------ *)
+(** * C. the permission gate on the scriptlet and on every transitive dependency *)
+
+Definition perm_ok (mask : N) (r : resource) : Prop := is_injectable_by (r_perm r) mask = true.
+
+(* everything in [p] that was not already in [prev] is a stored resource that passed the gate *)
+Definition gated (st : store) (mask : N) (prev p : list resource) : Prop :=
+  forall r, In r p -> In r prev \/ (In r (st_res st) /\ perm_ok mask r).
+
+Lemma gated_refl st mask p : gated st mask p p.
+Proof. intros r H. left. exact H. Qed.
+
+Lemma gated_trans st mask a b c : gated st mask a b -> gated st mask b c -> gated st mask a c.
+Proof.
+  intros Hab Hbc r Hr. destruct (Hbc r Hr) as [Hb | Hok]; [ apply Hab; exact Hb | right; exact Hok ].
+Qed.
+
+Lemma find_res_In name l r : find_res name l = Some r -> In r l /\ r_name r = name.
+Proof.
+  induction l as [ | x l IH ]; cbn [find_res]; [ discriminate | ].
+  destruct (str_eqb (r_name x) name) eqn:E.
+  - intros H. injection H as <-. split; [ left; reflexivity | apply str_eqb_eq; exact E ].
+  - intros H. destruct (IH H) as [Hin Hn]. split; [ right; exact Hin | exact Hn ].
+Qed.
+
+Lemma get_internal_In st ident r : get_internal_resource st ident = Some r -> In r (st_res st).
+Proof.
+  unfold get_internal_resource. destruct (find_res ident (st_res st)) as [ x | ] eqn:E.
+  - intros H. injection H as <-. apply (find_res_In _ _ _ E).
+  - destruct (find_alias ident (st_alias st)) as [ c | ]; [ | discriminate ].
+    intros H. apply (find_res_In _ _ _ H).
+Qed.
+
+Lemma get_permissioned_ok st n mask r :
+  get_permissioned_resource st n mask = SOk r ->
+  get_internal_resource st n = Some r /\ In r (st_res st) /\ perm_ok mask r.
+Proof.
+  unfold get_permissioned_resource. destruct (get_internal_resource st n) as [ x | ] eqn:E; [ | discriminate ].
+  destruct (is_injectable_by (r_perm x) mask) eqn:Ei; [ | discriminate ].
+  intros H. injection H as <-. repeat split; [ exact (get_internal_In _ _ _ E) | exact Ei ].
+Qed.
+
+Lemma fold_deps_inv (P : list resource -> Prop) step :
+  (forall d p, P p -> P (fst (step d p))) ->
+  forall ds p, P p -> P (fst (fold_deps step ds p)).
+Proof.
+  intros Hstep. induction ds as [ | d ds IH ]; intros p Hp; cbn [fold_deps]; [ exact Hp | ].
+  specialize (Hstep d p Hp). destruct (step d p) as [p1 e]. cbn [fst] in Hstep.
+  destruct e; [ exact Hstep | apply IH; exact Hstep ].
+Qed.
+
+Lemma rec_deps_gate : forall fuel st n prev mask,
+  gated st mask prev (fst (recursive_dependencies fuel st n prev mask)).
+Proof.
+  induction fuel as [ | f IH ]; intros st n prev mask; cbn [recursive_dependencies].
+  - apply gated_refl.
+  - destruct (get_permissioned_resource st n mask) as [ r0 | e ] eqn:Eg; [ | apply gated_refl ].
+    destruct (has_name (r_name r0) prev); [ apply gated_refl | ].
+    apply (fold_deps_inv (gated st mask prev)).
+    + intros d p Hp. eapply gated_trans; [ exact Hp | apply IH ].
+    + intros r Hr. apply in_app_or in Hr as [Hr | [<- | []]]; [ left; exact Hr | right ].
+      destruct (get_permissioned_ok _ _ _ _ Eg) as (_ & Hin & Hok). split; assumption.
+Qed.
+
+Lemma fold_rec_deps_gate fuel st mask ds prev :
+  gated st mask prev
+        (fst (fold_deps (fun d p => recursive_dependencies fuel st d p mask) ds prev)).
+Proof.
+  apply (fold_deps_inv (gated st mask prev)); [ | apply gated_refl ].
+  intros d p Hp. eapply gated_trans; [ exact Hp | apply rec_deps_gate ].
+Qed.
+
+(* get_scriptlet_resource: whatever it adds to required_deps passed the gate — also when it
+   finally returns an error *)
+Lemma scriptlet_deps_gate st text mask deps :
+  gated st mask deps (fst (get_scriptlet_resource st text mask deps)).
+Proof.
+  unfold get_scriptlet_resource.
+  destruct (parse_scriptlet_args text) as [ [ | name args ] | ]; try apply gated_refl.
+  destruct (object_syntax args); [ apply gated_refl | ].
+  destruct (get_permissioned_resource st (with_js_extension name) mask) as [ r0 | e ] eqn:Eg;
+    [ | apply gated_refl ].
+  destruct (negb (c18_supports_scriptlet_injection (r_kind r0))); [ apply gated_refl | ].
+  pose proof (fold_rec_deps_gate (dep_fuel st) st mask (r_deps r0) deps) as G.
+  destruct (fold_deps _ (r_deps r0) deps) as [deps1 e]. cbn [fst] in G.
+  destruct e; [ exact G | ].
+  destruct (r_decoded r0); try exact G.
+  destruct (r_fname r0); [ | exact G ].
+  cbn [fst]. destruct (has_name (r_name r0) deps1); [ exact G | ].
+  intros r Hr. apply in_app_or in Hr as [Hr | [<- | []]]; [ apply G; exact Hr | right ].
+  destruct (get_permissioned_ok _ _ _ _ Eg) as (_ & Hin & Hok). split; assumption.
+Qed.
+
+(* a successful invocation belongs to a stored, injectable-kind resource that passed the gate,
+   and its text is the function call with stringified arguments or the patched template *)
+Lemma scriptlet_ok_inv st text mask deps deps' inv :
+  get_scriptlet_resource st text mask deps = (deps', SOk inv) ->
+  exists name args r0,
+    parse_scriptlet_args text = Some (name :: args) /\
+    get_internal_resource st (with_js_extension name) = Some r0 /\
+    perm_ok mask r0 /\
+    c18_supports_scriptlet_injection (r_kind r0) = true /\
+    ((exists fname, r_fname r0 = Some fname /\ inv = invocation fname args /\
+                    has_name (r_name r0) deps' = true) \/
+     (exists template, r_decoded r0 = Text template /\ r_fname r0 = None /\
+                       inv = patch_template_scriptlet template (map (stringify_arg false) args))).
+Proof.
+  unfold get_scriptlet_resource.
+  destruct (parse_scriptlet_args text) as [ [ | name args ] | ]; try discriminate.
+  destruct (object_syntax args); [ discriminate | ].
+  destruct (get_permissioned_resource st (with_js_extension name) mask) as [ r0 | e ] eqn:Eg;
+    [ | discriminate ].
+  destruct (c18_supports_scriptlet_injection (r_kind r0)) eqn:Ek; cbn [negb]; [ | discriminate ].
+  destruct (fold_deps _ (r_deps r0) deps) as [deps1 e].
+  destruct e; [ discriminate | ].
+  destruct (get_permissioned_ok _ _ _ _ Eg) as (Hint & Hin & Hok).
+  destruct (r_decoded r0) as [ | | template ] eqn:Ed; try discriminate.
+  destruct (r_fname r0) as [ fname | ] eqn:Ef; intros H; injection H as <- <-;
+    exists name, args, r0; repeat split; try assumption.
+  - left. exists fname. split; [ exact Ef | split; [ reflexivity | ] ].
+    destruct (has_name (r_name r0) deps1) eqn:Eh; [ exact Eh | ].
+    unfold has_name. rewrite existsb_app. cbn [existsb]. rewrite str_eqb_refl.
+    rewrite Bool.orb_true_r. reflexivity.
+  - right. exists template. split; [ exact Ed | split; [ exact Ef | reflexivity ] ].
+Qed.
+
+(* the whole fold of get_scriptlet_resources *)
+Lemma gsr_fold_gate : forall st injections deps invs r,
+  In r (fst (gsr_fold st injections deps invs)) ->
+  In r deps \/ exists s mask, In (s, mask) injections /\ In r (st_res st) /\ perm_ok mask r.
+Proof.
+  induction injections as [ | [s mask] rest IH ]; intros deps invs r Hr; cbn [gsr_fold] in Hr.
+  - left. exact Hr.
+  - pose proof (scriptlet_deps_gate st s mask deps) as G.
+    destruct (get_scriptlet_resource st s mask deps) as [deps1 res]. cbn [fst] in G.
+    destruct (IH _ _ _ Hr) as [Hd | (s' & m' & Hin & Hst & Hok)].
+    + destruct (G r Hd) as [H0 | [Hst Hok]]; [ left; exact H0 | right ].
+      exists s, mask. repeat split; [ left; reflexivity | exact Hst | exact Hok ].
+    + right. exists s', m'. repeat split; [ right; exact Hin | exact Hst | exact Hok ].
+Qed.
+
+Lemma deps_gate st injections r :
+  In r (fst (gsr_fold st injections [] [])) ->
+  exists s mask, In (s, mask) injections /\ In r (st_res st) /\
+                 is_injectable_by (r_perm r) mask = true.
+Proof.
+  intros Hr. destruct (gsr_fold_gate _ _ _ _ _ Hr) as [[] | H]. exact H.
+Qed.
+
+(* ------------------------------------------------------------------------------------------ *)
+(** * D. termination: the visited list strictly grows, fuel = |resources| + 1 suffices *)
+
+Definition unvisited (st : store) (prev : list resource) : nat :=
+  length (filter (fun r => negb (has_name (r_name r) prev)) (st_res st)).
+
+Lemma filter_length_le {A} (f g : A -> bool) l :
+  (forall x, In x l -> f x = true -> g x = true) ->
+  (length (filter f l) <= length (filter g l))%nat.
+Proof.
+  induction l as [ | x l IH ]; intros H; [ cbn; lia | ].
+  cbn [filter]. assert (IH' := IH (fun y Hy => H y (or_intror Hy))).
+  destruct (f x) eqn:Ef.
+  - rewrite (H x (or_introl eq_refl) Ef). cbn [length]. lia.
+  - destruct (g x); cbn [length]; lia.
+Qed.
+
+Lemma filter_length_lt {A} (f g : A -> bool) l x0 :
+  (forall x, In x l -> f x = true -> g x = true) ->
+  In x0 l -> f x0 = false -> g x0 = true ->
+  (length (filter f l) < length (filter g l))%nat.
+Proof.
+  induction l as [ | x l IH ]; intros H Hin Hf Hg; [ destruct Hin | ].
+  cbn [filter]. destruct Hin as [-> | Hin].
+  - rewrite Hf, Hg. cbn [length].
+    pose proof (filter_length_le f g l (fun y Hy => H y (or_intror Hy))). lia.
+  - specialize (IH (fun y Hy => H y (or_intror Hy)) Hin Hf Hg).
+    destruct (f x) eqn:Ef.
+    + rewrite (H x (or_introl eq_refl) Ef). cbn [length]. lia.
+    + destruct (g x); cbn [length]; lia.
+Qed.
+
+Lemma filter_length_bound {A} (f : A -> bool) l : (length (filter f l) <= length l)%nat.
+Proof. induction l as [ | x l IH ]; cbn [filter]; [ lia | destruct (f x); cbn [length]; lia ]. Qed.
+
+Lemma has_name_incl n p p' : incl p p' -> has_name n p = true -> has_name n p' = true.
+Proof.
+  unfold has_name. intros Hi H. apply existsb_exists in H as (x & Hx & Hn).
+  apply existsb_exists. exists x. split; [ apply Hi; exact Hx | exact Hn ].
+Qed.
+
+Lemma unvisited_mono st p p' : incl p p' -> (unvisited st p' <= unvisited st p)%nat.
+Proof.
+  intros Hi. unfold unvisited. apply filter_length_le. intros x _ Hx.
+  apply Bool.negb_true_iff in Hx. apply Bool.negb_true_iff.
+  destruct (has_name (r_name x) p) eqn:E; [ | reflexivity ].
+  rewrite (has_name_incl _ _ _ Hi E) in Hx. discriminate.
+Qed.
+
+Lemma has_name_snoc n p r : has_name n (p ++ [r]) = has_name n p || str_eqb (r_name r) n.
+Proof. unfold has_name. rewrite existsb_app. cbn [existsb]. rewrite Bool.orb_false_r. reflexivity. Qed.
+
+Lemma unvisited_push st prev r0 :
+  In r0 (st_res st) -> has_name (r_name r0) prev = false ->
+  (unvisited st (prev ++ [r0]) < unvisited st prev)%nat.
+Proof.
+  intros Hin Hn. unfold unvisited. apply (filter_length_lt _ _ _ r0).
+  - intros x _ Hx. apply Bool.negb_true_iff in Hx. apply Bool.negb_true_iff.
+    rewrite has_name_snoc in Hx. apply Bool.orb_false_iff in Hx as [Hx _]. exact Hx.
+  - exact Hin.
+  - rewrite has_name_snoc, str_eqb_refl, Bool.orb_true_r. reflexivity.
+  - rewrite Hn. reflexivity.
+Qed.
+
+Lemma fold_deps_inv2 (P : list resource -> Prop) (Q : option serr -> Prop) step :
+  Q None ->
+  (forall d p, P p -> P (fst (step d p)) /\ Q (snd (step d p))) ->
+  forall ds p, P p -> P (fst (fold_deps step ds p)) /\ Q (snd (fold_deps step ds p)).
+Proof.
+  intros HQ Hstep. induction ds as [ | d ds IH ]; intros p Hp; cbn [fold_deps].
+  - split; [ exact Hp | exact HQ ].
+  - specialize (Hstep d p Hp). destruct (step d p) as [p1 e]. cbn [fst snd] in Hstep.
+    destruct Hstep as [H1 H2]. destruct e; [ split; assumption | apply IH; exact H1 ].
+Qed.
+
+Lemma get_permissioned_err st n mask e :
+  get_permissioned_resource st n mask = SErr e -> e <> OutOfFuel.
+Proof.
+  unfold get_permissioned_resource. destruct (get_internal_resource st n) as [ x | ].
+  - destruct (is_injectable_by (r_perm x) mask); [ discriminate | ].
+    intros H. injection H as <-. discriminate.
+  - intros H. injection H as <-. discriminate.
+Qed.
+
+Lemma rec_deps_fuel : forall fuel st n prev mask,
+  (unvisited st prev < fuel)%nat ->
+  incl prev (fst (recursive_dependencies fuel st n prev mask)) /\
+  snd (recursive_dependencies fuel st n prev mask) <> Some OutOfFuel.
+Proof.
+  induction fuel as [ | f IH ]; intros st n prev mask Hu; [ lia | ].
+  cbn [recursive_dependencies].
+  destruct (get_permissioned_resource st n mask) as [ r0 | e ] eqn:Eg.
+  - destruct (has_name (r_name r0) prev) eqn:Eh.
+    + cbn [fst snd]. split; [ apply incl_refl | discriminate ].
+    + destruct (get_permissioned_ok _ _ _ _ Eg) as (_ & Hin & _).
+      pose proof (unvisited_push st prev r0 Hin Eh) as Hlt.
+      destruct (fold_deps_inv2 (fun p => incl (prev ++ [r0]) p) (fun e => e <> Some OutOfFuel)
+                  (fun d p => recursive_dependencies f st d p mask)
+                  ltac:(discriminate)) with (ds := r_deps r0) (p := prev ++ [r0]) as [H1 H2].
+      * intros d p Hp. pose proof (unvisited_mono st _ _ Hp) as Hm.
+        destruct (IH st d p mask ltac:(lia)) as [Hi Hq].
+        split; [ eapply incl_tran; [ exact Hp | exact Hi ] | exact Hq ].
+      * apply incl_refl.
+      * split; [ | exact H2 ]. eapply incl_tran; [ apply incl_appl; apply incl_refl | exact H1 ].
+  - cbn [fst snd]. split; [ apply incl_refl | ].
+    intros H. injection H as ->. exact (get_permissioned_err _ _ _ _ Eg eq_refl).
+Qed.
+
+Lemma unvisited_lt_dep_fuel st prev : (unvisited st prev < dep_fuel st)%nat.
+Proof. unfold unvisited, dep_fuel. pose proof (filter_length_bound (fun r => negb (has_name (r_name r) prev)) (st_res st)). lia. Qed.
+
+Lemma deps_terminate st n prev mask :
+  snd (recursive_dependencies (dep_fuel st) st n prev mask) <> Some OutOfFuel.
+Proof. apply rec_deps_fuel. apply unvisited_lt_dep_fuel. Qed.
+
+Lemma scriptlet_never_out_of_fuel st text mask deps :
+  snd (get_scriptlet_resource st text mask deps) <> SErr OutOfFuel.
+Proof.
+  unfold get_scriptlet_resource.
+  destruct (parse_scriptlet_args text) as [ [ | name args ] | ]; try discriminate.
+  destruct (object_syntax args); [ discriminate | ].
+  destruct (get_permissioned_resource st (with_js_extension name) mask) as [ r0 | e ] eqn:Eg.
+  - destruct (negb (c18_supports_scriptlet_injection (r_kind r0))); [ discriminate | ].
+    destruct (fold_deps_inv2 (fun _ => True) (fun e => e <> Some OutOfFuel)
+                (fun d p => recursive_dependencies (dep_fuel st) st d p mask)
+                ltac:(discriminate)) with (ds := r_deps r0) (p := deps) as [_ H2].
+    + intros d p _. split; [ exact I | apply deps_terminate ].
+    + exact I.
+    + destruct (fold_deps _ (r_deps r0) deps) as [deps1 e]. cbn [snd] in H2.
+      destruct e as [ e | ].
+      * cbn [snd]. intros H. injection H as ->. apply H2. reflexivity.
+      * destruct (r_decoded r0); try discriminate. destruct (r_fname r0); discriminate.
+  - cbn [snd]. intros H. injection H as ->. exact (get_permissioned_err _ _ _ _ Eg eq_refl).
+Qed.
+
+(* the visited list holds distinct canonical names *)
+Definition distinct_names (p : list resource) : Prop := NoDup (map r_name p).
+
+Lemma has_name_false_notin n p : has_name n p = false -> ~ In n (map r_name p).
+Proof.
+  intros H Hin. apply in_map_iff in Hin as (x & Hx & Hi).
+  assert (E : has_name n p = true).
+  { unfold has_name. apply existsb_exists. exists x. split; [ exact Hi | ]. rewrite Hx. apply str_eqb_refl. }
+  rewrite E in H. discriminate.
+Qed.
+
+Lemma NoDup_app_snoc {A} (l : list A) x : NoDup l -> ~ In x l -> NoDup (l ++ [x]).
+Proof.
+  induction l as [ | y l IH ]; intros Hd Hn.
+  - cbn [app]. constructor; [ intros [] | constructor ].
+  - inversion Hd as [ | ? ? Hy Hl ]; subst. cbn [app]. constructor.
+    + intros Hin. apply in_app_or in Hin as [H | [H | []]]; [ contradiction | ].
+      subst. apply Hn. left. reflexivity.
+    + apply IH; [ exact Hl | ]. intros H. apply Hn. right. exact H.
+Qed.
+
+Lemma rec_deps_distinct : forall fuel st n prev mask,
+  distinct_names prev -> distinct_names (fst (recursive_dependencies fuel st n prev mask)).
+Proof.
+  induction fuel as [ | f IH ]; intros st n prev mask Hd; cbn [recursive_dependencies]; [ exact Hd | ].
+  destruct (get_permissioned_resource st n mask) as [ r0 | e ]; [ | exact Hd ].
+  destruct (has_name (r_name r0) prev) eqn:Eh; [ exact Hd | ].
+  apply (fold_deps_inv distinct_names).
+  - intros d p Hp. apply IH. exact Hp.
+  - unfold distinct_names. rewrite map_app. cbn [map].
+    apply NoDup_app_snoc; [ exact Hd | apply has_name_false_notin; exact Eh ].
+Qed.
+
+
+Lemma visited_grows_distinct : forall fuel st n prev mask,
+  incl prev (fst (recursive_dependencies fuel st n prev mask)) /\
+  (NoDup (map r_name prev) ->
+   NoDup (map r_name (fst (recursive_dependencies fuel st n prev mask)))).
+Proof.
+  intros fuel st n prev mask. split.
+  - destruct (Nat.lt_ge_cases (unvisited st prev) fuel) as [H | H].
+    + apply rec_deps_fuel. exact H.
+    + (* not enough fuel: still monotone *)
+      revert n prev mask H. induction fuel as [ | f IH ]; intros n prev mask H.
+      * apply incl_refl.
+      * cbn [recursive_dependencies].
+        destruct (get_permissioned_resource st n mask) as [ r0 | e ]; [ | apply incl_refl ].
+        destruct (has_name (r_name r0) prev); [ apply incl_refl | ].
+        eapply incl_tran; [ apply incl_appl; apply incl_refl | ].
+        apply (fold_deps_inv (fun p => incl (prev ++ [r0]) p)); [ | apply incl_refl ].
+        intros d p Hp. eapply incl_tran; [ exact Hp | ].
+        destruct (Nat.lt_ge_cases (unvisited st p) f) as [H' | H'].
+        -- apply rec_deps_fuel. exact H'.
+        -- apply IH. exact H'.
+  - apply rec_deps_distinct.
+Qed.
+
+(* ------------------------------------------------------------------------------------------ *)
+(** * E. redirects refuse permissioned resources *)
+
+Lemma redirect_some st ident out :
+  get_redirect_resource st ident = Some out ->
+  exists r, get_internal_resource st ident = Some r /\ r_perm r = 0 /\
+            c18_supports_redirect (r_kind r) = true.
+Proof.
+  unfold get_redirect_resource. destruct (get_internal_resource st ident) as [ r | ]; [ | discriminate ].
+  destruct (c18_perm_is_default (r_perm r)) eqn:Ed; cbn [negb]; [ | discriminate ].
+  destruct (c18_supports_redirect (r_kind r)) eqn:Es; cbn [negb]; [ | discriminate ].
+  intros _. exists r. split; [ reflexivity | split; [ | exact Es ] ].
+  unfold c18_perm_is_default in Ed. apply N.eqb_eq in Ed. exact Ed.
+Qed.
+
+Lemma redirect_refuses_permissioned st ident r :
+  get_internal_resource st ident = Some r -> r_perm r <> 0 -> get_redirect_resource st ident = None.
+Proof.
+  intros Hr Hp. destruct (get_redirect_resource st ident) as [ out | ] eqn:E; [ | reflexivity ].
+  destruct (redirect_some _ _ _ E) as (r' & Hr' & Hp' & _). rewrite Hr in Hr'. injection Hr' as <-.
+  contradiction.
+Qed.
+
+(* ------------------------------------------------------------------------------------------ *)
+(** * F. per-host merge: exceptions and the permission union *)
+
+Fixpoint lookup (x : str) (l : list (str * N)) : option N :=
+  match l with
+  | [] => None
+  | (k, m) :: r => if str_eqb k x then Some m else lookup x r
+  end.
+
+Definition union_from (a : N) (injs : list (str * N)) (x : str) : N :=
+  fold_left (fun acc e => if str_eqb (fst e) x then c18_perm_bitor acc (snd e) else acc) injs a.
+Definition mentions (x : str) (injs : list (str * N)) : bool :=
+  existsb (fun e => str_eqb (fst e) x) injs.
+
+Lemma union_mask_from injs x : union_mask injs x = union_from 0 injs x.
+Proof. reflexivity. Qed.
+
+Lemma bitor_0_l m : c18_perm_bitor 0 m = m.
+Proof. unfold c18_perm_bitor. apply N.lor_0_l. Qed.
+
+Lemma str_eqb_sym a b : str_eqb a b = str_eqb b a.
+Proof.
+  destruct (str_eqb a b) eqn:E.
+  - apply str_eqb_eq in E. subst. symmetry. apply str_eqb_refl.
+  - destruct (str_eqb b a) eqn:E'; [ | reflexivity ]. apply str_eqb_eq in E'. subst.
+    rewrite str_eqb_refl in E. discriminate.
+Qed.
+
+Lemma lookup_upsert x k m l :
+  lookup x (map_upsert k m l) =
+  if str_eqb k x
+  then Some (match lookup x l with Some a => c18_perm_bitor a m | None => m end)
+  else lookup x l.
+Proof.
+  induction l as [ | [k' m'] l IH ]; cbn [map_upsert lookup].
+  - destruct (str_eqb k x); reflexivity.
+  - destruct (str_eqb k' k) eqn:Ek.
+    + apply str_eqb_eq in Ek. subst k'. cbn [lookup]. destruct (str_eqb k x); reflexivity.
+    + cbn [lookup]. destruct (str_eqb k' x) eqn:Ex.
+      * apply str_eqb_eq in Ex. subst k'. rewrite str_eqb_sym, Ek. reflexivity.
+      * exact IH.
+Qed.
+
+Lemma lookup_merge : forall injs acc x,
+  lookup x (fold_left (fun acc e => map_upsert (fst e) (snd e) acc) injs acc) =
+  match lookup x acc with
+  | Some a => Some (union_from a injs x)
+  | None => if mentions x injs then Some (union_from 0 injs x) else None
+  end.
+Proof.
+  induction injs as [ | [k m] rest IH ]; intros acc x.
+  - cbn [fold_left mentions existsb]. unfold union_from. cbn [fold_left]. destruct (lookup x acc); reflexivity.
+  - cbn [fold_left fst snd]. rewrite IH, lookup_upsert. unfold mentions, union_from.
+    cbn [existsb fold_left fst snd]. destruct (str_eqb k x) eqn:Ek.
+    + destruct (lookup x acc) as [ a | ]; [ reflexivity | ]. cbn [orb]. rewrite bitor_0_l. reflexivity.
+    + cbn [orb]. reflexivity.
+Qed.
+
+Lemma upsert_keys y k m l : In y (map fst (map_upsert k m l)) <-> y = k \/ In y (map fst l).
+Proof.
+  induction l as [ | [k' m'] l IH ]; cbn [map_upsert map fst In].
+  - intuition.
+  - destruct (str_eqb k' k) eqn:Ek.
+    + apply str_eqb_eq in Ek. subst k'. cbn [map fst In]. intuition.
+    + cbn [map fst In]. rewrite IH. intuition.
+Qed.
+
+Lemma upsert_nodup k m l : NoDup (map fst l) -> NoDup (map fst (map_upsert k m l)).
+Proof.
+  induction l as [ | [k' m'] l IH ]; intros Hd; cbn [map_upsert map fst].
+  - constructor; [ intros [] | constructor ].
+  - cbn [map fst] in Hd. inversion Hd as [ | ? ? Hn Hl ]; subst.
+    destruct (str_eqb k' k) eqn:Ek; cbn [map fst].
+    + constructor; assumption.
+    + constructor; [ | apply IH; exact Hl ].
+      intros Hin. apply upsert_keys in Hin as [-> | Hin]; [ | contradiction ].
+      rewrite str_eqb_refl in Ek. discriminate.
+Qed.
+
+Lemma merge_nodup_from : forall injs acc,
+  NoDup (map fst acc) ->
+  NoDup (map fst (fold_left (fun acc e => map_upsert (fst e) (snd e) acc) injs acc)).
+Proof.
+  induction injs as [ | e rest IH ]; intros acc Hd; cbn [fold_left]; [ exact Hd | ].
+  apply IH. apply upsert_nodup. exact Hd.
+Qed.
+
+Lemma merge_nodup injs : NoDup (map fst (merge_injections injs)).
+Proof. apply merge_nodup_from. constructor. Qed.
+
+Lemma lookup_In x m l : NoDup (map fst l) -> (In (x, m) l <-> lookup x l = Some m).
+Proof.
+  induction l as [ | [k a] l IH ]; intros Hd; cbn [lookup In].
+  - split; [ intros [] | discriminate ].
+  - cbn [map fst] in Hd. inversion Hd as [ | ? ? Hn Hl ]; subst.
+    destruct (str_eqb k x) eqn:Ek.
+    + apply str_eqb_eq in Ek. subst k. split.
+      * intros [H | H]; [ injection H as ->; reflexivity | ].
+        exfalso. apply Hn. apply in_map_iff. exists (x, m). split; [ reflexivity | exact H ].
+      * intros H. injection H as ->. left. reflexivity.
+    + rewrite <- (IH Hl). split; [ | intros H; right; exact H ].
+      intros [H | H]; [ | exact H ]. injection H as -> ->. rewrite str_eqb_refl in Ek. discriminate.
+Qed.
+
+Lemma mentions_requested x injs : mentions x injs = true <-> requested injs x.
+Proof.
+  unfold mentions, requested. rewrite existsb_exists. split.
+  - intros ([k m] & Hin & He). cbn [fst] in He. apply str_eqb_eq in He. subst k.
+    apply in_map_iff. exists (x, m). split; [ reflexivity | exact Hin ].
+  - intros H. apply in_map_iff in H as ([k m] & Hk & Hin). cbn [fst] in Hk. subst k.
+    exists (x, m). split; [ exact Hin | apply str_eqb_refl ].
+Qed.
+
+Lemma merge_spec injs x m :
+  In (x, m) (merge_injections injs) <-> requested injs x /\ m = union_mask injs x.
+Proof.
+  rewrite (lookup_In x m _ (merge_nodup injs)). unfold merge_injections. rewrite lookup_merge.
+  cbn [lookup]. change (union_mask injs x) with (union_from 0 injs x). destruct (mentions x injs) eqn:Em.
+  - apply mentions_requested in Em. split.
+    + intros H. injection H as <-. split; [ exact Em | reflexivity ].
+    + intros [_ ->]. reflexivity.
+  - split; [ discriminate | ]. intros [Hr _]. apply mentions_requested in Hr. rewrite Hr in Em. discriminate.
+Qed.
+
+Lemma apply_uninject_all : forall excs, apply_uninject excs true [] = [].
+Proof.
+  induction excs as [ | s r IH ]; cbn [apply_uninject]; [ reflexivity | ].
+  destruct (null s); exact IH.
+Qed.
+
+Lemma null_nil (s : str) : null s = true <-> s = [].
+Proof. destruct s; cbn [null]; split; intros H; try reflexivity; discriminate. Qed.
+
+Lemma apply_uninject_spec : forall excs m x a,
+  In (x, a) (apply_uninject excs false m) <-> In (x, a) m /\ ~ In x excs /\ ~ blanket excs.
+Proof.
+  unfold blanket. induction excs as [ | s r IH ]; intros m x a; cbn [apply_uninject In].
+  - intuition.
+  - destruct (null s) eqn:En.
+    + apply null_nil in En. subst s. rewrite apply_uninject_all. cbn [In]. intuition.
+    + rewrite IH. unfold map_remove. rewrite filter_In. cbn [fst].
+      assert (Hs : s <> []) by (intros ->; discriminate En).
+      split.
+      * intros ((Hin & Hne) & Hx & Hb). apply Bool.negb_true_iff in Hne. apply str_eqb_neq in Hne.
+        repeat split; [ exact Hin | | ].
+        -- intros [H | H]; [ apply Hne; symmetry; exact H | apply Hx; exact H ].
+        -- intros [H | H]; [ apply Hs; exact H | apply Hb; exact H ].
+      * intros (Hin & Hx & Hb). repeat split; [ exact Hin | | | ].
+        -- apply Bool.negb_true_iff. apply str_eqb_neq. intros ->. apply Hx. left. reflexivity.
+        -- intros H. apply Hx. right. exact H.
+        -- intros H. apply Hb. right. exact H.
+Qed.
+
+(* the injections of a host, completely characterised *)
+Lemma host_injections_spec injs excs x m :
+  In (x, m) (host_injections injs excs) <->
+  requested injs x /\ ~ In x excs /\ ~ blanket excs /\ m = union_mask injs x.
+Proof. unfold host_injections. rewrite apply_uninject_spec, merge_spec. intuition. Qed.
+
+Lemma exception_exact injs excs x :
+  In x (map fst (host_injections injs excs)) <-> requested injs x /\ ~ In x excs /\ ~ blanket excs.
+Proof.
+  rewrite in_map_iff. split.
+  - intros ([k m] & Hk & Hin). cbn [fst] in Hk. subst k.
+    apply host_injections_spec in Hin. intuition.
+  - intros (Hr & Hx & Hb). exists (x, union_mask injs x). split; [ reflexivity | ].
+    apply host_injections_spec. intuition.
+Qed.
+
+Lemma blanket_exception_all injs excs : blanket excs -> host_injections injs excs = [].
+Proof.
+  intros Hb. destruct (host_injections injs excs) as [ | [x m] l ] eqn:E; [ reflexivity | ].
+  assert (H : In (x, m) (host_injections injs excs)) by (rewrite E; left; reflexivity).
+  apply host_injections_spec in H. exfalso. intuition.
+Qed.
+
+Lemma filter_nodup_keys (f : str * N -> bool) l : NoDup (map fst l) -> NoDup (map fst (filter f l)).
+Proof.
+  induction l as [ | e l IH ]; intros Hd; cbn [filter map]; [ constructor | ].
+  cbn [map] in Hd. inversion Hd as [ | ? ? Hn Hl ]; subst.
+  destruct (f e); [ | apply IH; exact Hl ]. cbn [map]. constructor; [ | apply IH; exact Hl ].
+  intros Hin. apply Hn. apply in_map_iff in Hin as (y & Hy & Hi). apply filter_In in Hi as [Hi _].
+  apply in_map_iff. exists y. split; assumption.
+Qed.
+
+Lemma apply_uninject_nodup : forall excs b m,
+  NoDup (map fst m) -> NoDup (map fst (apply_uninject excs b m)).
+Proof.
+  induction excs as [ | s r IH ]; intros b m Hd; cbn [apply_uninject]; [ exact Hd | ].
+  destruct (null s).
+  - apply IH. constructor.
+  - destruct b; apply IH; [ exact Hd | ]. apply filter_nodup_keys. exact Hd.
+Qed.
+
+(* every argument text is injected at most once per host *)
+Lemma host_injections_nodup injs excs : NoDup (map fst (host_injections injs excs)).
+Proof. apply apply_uninject_nodup. apply merge_nodup. Qed.
+
+(* ---- F18: which mask gates an injection ---- *)
+
+Lemma bitor_idem a m : c18_perm_bitor (c18_perm_bitor a m) m = c18_perm_bitor a m.
+Proof. unfold c18_perm_bitor. rewrite <- N.lor_assoc, N.lor_diag. reflexivity. Qed.
+
+Lemma union_from_const : forall injs x m0 a,
+  (forall e, In e injs -> fst e = x -> snd e = m0) ->
+  union_from a injs x = if mentions x injs then c18_perm_bitor a m0 else a.
+Proof.
+  induction injs as [ | [k m] rest IH ]; intros x m0 a H; [ reflexivity | ].
+  unfold union_from, mentions. cbn [fold_left existsb fst snd].
+  destruct (str_eqb k x) eqn:Ek.
+  - apply str_eqb_eq in Ek. subst k. assert (m = m0) by (apply (H (x, m)); [ left | ]; reflexivity). subst m.
+    cbn [orb]. fold (union_from (c18_perm_bitor a m0) rest x).
+    rewrite (IH x m0 _ (fun e He => H e (or_intror He))). rewrite bitor_idem.
+    destruct (mentions x rest); reflexivity.
+  - cbn [orb]. fold (union_from a rest x). fold (mentions x rest).
+    apply IH. intros e He. apply H. right. exact He.
+Qed.
+
+Lemma not_mixed injs : mixed_masks injs = false ->
+  forall e e', In e injs -> In e' injs -> fst e = fst e' -> snd e = snd e'.
+Proof.
+  unfold mixed_masks. intros H e e' He He' Hk.
+  destruct (N.eq_dec (snd e) (snd e')) as [Heq | Hne]; [ exact Heq | exfalso ].
+  assert (T : existsb (fun e0 => existsb (fun e'0 => str_eqb (fst e0) (fst e'0) && negb (snd e0 =? snd e'0)) injs) injs = true).
+  { apply existsb_exists. exists e. split; [ exact He | ]. apply existsb_exists. exists e'. split; [ exact He' | ].
+    rewrite Hk, str_eqb_refl. cbn [andb]. apply Bool.negb_true_iff. apply N.eqb_neq. exact Hne. }
+  rewrite T in H. discriminate.
+Qed.
+
+(* without F18's class, the merged mask is the mask of the list that wrote the rule *)
+Lemma union_mask_single injs x m :
+  mixed_masks injs = false -> In (x, m) injs -> union_mask injs x = m.
+Proof.
+  intros Hm Hin. change (union_mask injs x) with (union_from 0 injs x).
+  rewrite (union_from_const injs x m 0).
+  - assert (E : mentions x injs = true).
+    { apply mentions_requested. apply in_map_iff. exists (x, m). split; [ reflexivity | exact Hin ]. }
+    rewrite E. apply bitor_0_l.
+  - intros e He Hk. exact (not_mixed injs Hm e (x, m) He Hin Hk).
+Qed.
+
+(* ---- host level: the gate, per merged mask, in any iteration order ---- *)
+
+Lemma host_deps_gate st injs excs order r :
+  Permutation order (host_injections injs excs) ->
+  In r (fst (gsr_fold st order [] [])) ->
+  exists x, requested injs x /\ ~ In x excs /\ ~ blanket excs /\ In r (st_res st) /\
+            is_injectable_by (r_perm r) (union_mask injs x) = true.
+Proof.
+  intros Hp Hr. destruct (deps_gate _ _ _ Hr) as (s & mask & Hin & Hst & Hok).
+  apply (Permutation_in _ Hp) in Hin. apply host_injections_spec in Hin as (H1 & H2 & H3 & ->).
+  exists s. repeat split; assumption.
+Qed.
+
+Lemma host_deps_gate_single st injs excs order r :
+  mixed_masks injs = false ->
+  Permutation order (host_injections injs excs) ->
+  In r (fst (gsr_fold st order [] [])) ->
+  exists x m, In (x, m) injs /\ ~ In x excs /\ ~ blanket excs /\ In r (st_res st) /\
+              is_injectable_by (r_perm r) m = true.
+Proof.
+  intros Hm Hp Hr. destruct (host_deps_gate _ _ _ _ _ Hp Hr) as (x & Hreq & H2 & H3 & Hst & Hok).
+  unfold requested in Hreq. apply in_map_iff in Hreq as ([k m] & Hk & Hin). cbn [fst] in Hk. subst k.
+  exists x, m. rewrite (union_mask_single injs x m Hm Hin) in Hok. repeat split; assumption.
+Qed.
+
+(* ------------------------------------------------------------------------------------------ *)
+(** * G. witnesses of the known findings, and examples showing that the hypotheses of the
+      conditional theorems are satisfiable on non-trivial inputs *)
+
+Definition js_res (name : string) (deps : list string) (perm : N) : resource :=
+  mkRes (bs name) [] (RK_Mime MT_ApplicationJavascript) [] (Text (bs "function " ++ bs name ++ bs "(){}"))
+        (Some (bs name)) (map bs deps) perm.
+
+(* F18: lists granted 01 and 10 both ask for +js(p); p.js requires 11 *)
+Definition f18_store : store := from_resources [js_res "p.js" [] 3].
+Definition f18_injs : list (str * N) := [(bs "p", 1); (bs "p", 2)].
+
+Lemma permission_union_refuted :
+  exists st injs r,
+    mixed_masks injs = true /\
+    In r (fst (gsr_fold st (host_injections injs []) [] [])) /\
+    (forall x m, In (x, m) injs -> is_injectable_by (r_perm r) m = false) /\
+    is_injectable_by (r_perm r) (union_mask injs (bs "p")) = true.
+Proof.
+  exists f18_store, f18_injs, (js_res "p.js" [] 3). split; [ vm_compute; reflexivity | ].
+  split; [ vm_compute; left; reflexivity | ]. split; [ | vm_compute; reflexivity ].
+  intros x m [H | [H | []]]; injection H as <- <-; vm_compute; reflexivity.
+Qed.
+
+(* F25: a.js -> x.js -> y.js (y.js requires bit 0), b.js -> x.js *)
+Definition f25_store : store :=
+  from_resources [js_res "a.js" ["x.js"] 0; js_res "x.js" ["y.js"] 0; js_res "y.js" [] 1;
+                  js_res "b.js" ["x.js"] 0].
+
+(* alone, +js(b) from a list without the bit is refused; after +js(a) from a list with the bit it
+   is accepted, because x.js is already collected and its subtree is not looked at again *)
+Lemma visited_dependency_skips_gate_refuted :
+  exists st,
+    snd (get_scriptlet_resource st (bs "b") 0 []) = SErr InsufficientPermissions /\
+    exists inv, snd (get_scriptlet_resource st (bs "b") 0
+                       (fst (get_scriptlet_resource st (bs "a") 1 []))) = SOk inv.
+Proof.
+  exists f25_store. split; [ vm_compute; reflexivity | ]. eexists. vm_compute. reflexivity.
+Qed.
+
+(* in the other order +js(a) is invoked although its dependency y.js is not in the script: the
+   refused +js(b) left x.js behind; so the script depends on the HashMap iteration order *)
+Lemma injection_order_matters_refuted :
+  exists st i1 i2,
+    has_name (bs "y.js") (fst (gsr_fold st [i2; i1] [] [])) = false /\
+    has_name (bs "y.js") (fst (gsr_fold st [i1; i2] [] [])) = true /\
+    snd (gsr_fold st [i2; i1] [] []) <> [] /\
+    get_scriptlet_resources st [i1; i2] <> get_scriptlet_resources st [i2; i1].
+Proof.
+  exists f25_store, (bs "a", 1), (bs "b", 0).
+  split; [ vm_compute; reflexivity | ]. split; [ vm_compute; reflexivity | ].
+  split; vm_compute; discriminate.
+Qed.
+
+(* a store with aliases, a dependency cycle through an alias, a missing dependency *)
+Definition ex_store : store :=
+  from_resources
+    [ mkRes (bs "s.js") [bs "alias-s.js"] (RK_Mime MT_ApplicationJavascript) []
+            (Text (bs "function s(a){}")) (Some (bs "s")) [bs "d1.fn"; bs "alias-d2"] 1;
+      mkRes (bs "d1.fn") [] (RK_Mime MT_FnJavascript) [] (Text (bs "function d1(){}"))
+            (Some (bs "d1")) [bs "alias-s.js"] 0;
+      mkRes (bs "d2.fn") [bs "alias-d2"] (RK_Mime MT_FnJavascript) [] (Text (bs "function d2(){}"))
+            (Some (bs "d2")) [bs "d1.fn"] 1;
+      mkRes (bs "t.js") [] RK_Template [] (Text (bs "x('{{1}}')")) None [bs "nosuch"] 0;
+      mkRes (bs "secret.js") [] (RK_Mime MT_ApplicationJavascript) [] (Text (bs "/* */")) None [] 2 ].
+Definition ex_injs : list (str * N) :=
+  [(bs "alias-s, ""q"", a\,b", 1); (bs "s", 0); (bs "secret", 1); (bs "t, x", 3)].
+Definition ex_excs : list str := [bs "t, x"].
+
+Example deps_gate_ex :
+  map r_name (fst (gsr_fold ex_store (host_injections ex_injs ex_excs) [] []))
+  = [bs "d1.fn"; bs "s.js"; bs "d2.fn"] /\
+  mixed_masks ex_injs = false /\
+  map fst (host_injections ex_injs ex_excs) = [bs "alias-s, ""q"", a\,b"; bs "s"; bs "secret"].
+Proof. vm_compute. repeat split. Qed.
+
+Example script_ex :
+  get_scriptlet_resources ex_store (host_injections ex_injs ex_excs) =
+  bs "function d1(){}" ++ [10] ++ bs "function s(a){}" ++ [10] ++ bs "function d2(){}" ++ [10] ++
+  bs "try {" ++ [10] ++ bs "s(""q"", ""a,b"")" ++ [10] ++ bs "} catch ( e ) { }" ++ [10].
+Proof. vm_compute. reflexivity. Qed.
+
+Example redirect_ex :
+  (exists r, get_internal_resource ex_store (bs "secret.js") = Some r /\ r_perm r <> 0) /\
+  get_redirect_resource ex_store (bs "alias-s.js") = None /\
+  get_redirect_resource ex_store (bs "d2.fn") = None.
+Proof.
+  split; [ eexists; split; [ vm_compute; reflexivity | vm_compute; discriminate ] | ].
+  split; vm_compute; reflexivity.
+Qed.
+
+Example invocation_args_ex :
+  parse_lits 2 (bs """a\""b"", ""c\\""" ++ [RPAR]) = Some [bs "a""b"; bs "c\"].
+Proof. vm_compute. reflexivity. Qed.
+
+(* U+2028 / U+2029 are emitted raw: legal inside string literals since ES2019, a line terminator
+   (syntax error) before; the recogniser follows ES2019 *)
+Example line_separator_raw :
+  stringify_arg true [226; 128; 168] = [34; 226; 128; 168; 34].
+Proof. vm_compute. reflexivity. Qed.
